@@ -154,16 +154,21 @@ func VerifC11Outcome(h *verifh.H) {
 		src.failAt = 0
 	}
 	sink := &vSink{failBatch: -1, failing: map[string]bool{}}
-	switch h.Choice("sinkMode", 3) {
+	switch h.Choice("sinkMode", 4) {
 	case 1:
 		sink.failing[ents[1].ID] = true // permanent rejection of one entity
 	case 2:
 		sink.failBatch = 0 // transient: first call fails
+	case 3:
+		sink.failAll = true // every call fails, also with an empty batch (target dataset gone)
 	}
 	j.pipeline.spec().source = src
 	j.pipeline.spec().sink = sink
-	if h.Choice("transform", 2) == 1 {
+	switch h.Choice("transform", 3) {
+	case 1:
 		j.pipeline.spec().transform = &vTransform{par: 1}
+	case 2:
+		j.pipeline.spec().transform = &vTransform{par: 1, mode: 1} // filters every entity away
 	}
 
 	runs := 0
